@@ -229,6 +229,11 @@ def remove_SplitSliceRead(op, arch):
             and consumer.type != Op.Memcpy
             and consumer.type != Op.Mul
             and consumer.original_type != Op.Transpose
+            # the consumer must see the tensor in the shape in which the slice produces it: the read offset / read shape
+            # are given in those coordinates (the lowered SOFTMAX and MEAN operators view their IFM re-shaped)
+            and all(
+                shape == op.ofm_shapes[0] for tens, shape in zip(consumer.inputs, consumer.ifm_shapes) if tens == op.ofm
+            )
             for consumer in op.ofm.consumer_list
         ):
             # SplitSliceRead can be performed by tensor consumer(s)
